@@ -6,6 +6,7 @@ CONSTANT GrowModes = {FALSE}
 CONSTANT FloorAhead = 0
 CONSTANT MaxPend = 1000
 CONSTANT Fine = TRUE
+CONSTANT Acts = {"Next", "GTLast", "GTBatch", "GTBegin", "GiveBack", "Idle", "Stop"}
 SPECIFICATION CSpec
 CONSTRAINT Progress
 POSTCONDITION Accept
